@@ -6,8 +6,8 @@ package main
 
 import (
 	"fmt"
+	"math/rand"
 	"os"
-	"strings"
 
 	vaxis "git.sr.ht/~rockorager/vaxis"
 	"verif/harness/hx"
@@ -19,48 +19,133 @@ const (
 	winCol, winRow     = 3, 2
 )
 
-type drawJSON struct {
-	Hist    histJSON `json:"hist"`
-	Outside bool     `json:"outside_untouched"`
-	Visible bool     `json:"cursor_visible"`
-	Col     int      `json:"cursor_col"`
-	Row     int      `json:"cursor_row"`
-	W, H    int
+type levelJSON struct {
+	Col, Row, W, H int
 }
 
-// drawCase draws the emulator into a child window of size w x h of a real Vaxis whose
-// screen was filled with a sentinel, and returns the Coq term of the observation.
-func drawCase(vx *vaxis.Vaxis, r *termhx.Runner, w, h int) (string, drawJSON) {
+type drawJSON struct {
+	Hist    histJSON    `json:"hist"`
+	Chain   []levelJSON `json:"window_chain_innermost_first"`
+	Focused bool        `json:"focused"`
+	Visible bool        `json:"cursor_visible"`
+	Col     int         `json:"cursor_col_abs"`
+	Row     int         `json:"cursor_row_abs"`
+	Changed int         `json:"host_cells_changed"`
+	Resized bool        `json:"resized"`
+	Panic   string      `json:"panic,omitempty"`
+}
+
+// hostWindow builds the window Draw is given: mode 0 a child of the root of the terminal's
+// own size, otherwise a chain of one to three windows below the root, each made by
+// Window.New (offsets from -3 to beyond the parent's edge, sizes -1 / smaller / larger than
+// the parent: New clamps to the right and bottom edge only) or as a struct literal (any
+// offset, any size up to beyond the screen, so that the window overhangs its parent).  The
+// innermost window has at least one cell; its size is the terminal's (no resize in Draw)
+// or another one.
+func hostWindow(rng *rand.Rand, root vaxis.Window, tw, th, mode int) vaxis.Window {
+	if mode == 0 {
+		return root.New(winCol, winRow, tw, th)
+	}
+	if mode == 2 {
+		// a window without a cell: Window.New for an offset at or beyond the parent's edge
+		parent := root
+		if rng.Intn(2) == 0 {
+			parent = root.New(rng.Intn(6), rng.Intn(4), 6+rng.Intn(10), 4+rng.Intn(6))
+		}
+		pw, ph := parent.Size()
+		if rng.Intn(2) == 0 {
+			return parent.New(pw+rng.Intn(3), rng.Intn(ph), 1+rng.Intn(8), 1+rng.Intn(6))
+		}
+		return parent.New(rng.Intn(pw), ph+rng.Intn(3), 1+rng.Intn(8), 1+rng.Intn(6))
+	}
+	for try := 0; try < 50; try++ {
+		win := root
+		depth := 1 + rng.Intn(3)
+		for d := 0; d < depth; d++ {
+			pw, ph := win.Size()
+			last := d == depth-1
+			cols, rows := rng.Intn(pw+4)-1, rng.Intn(ph+4)-1
+			if last {
+				switch rng.Intn(3) {
+				case 0:
+					cols, rows = tw, th
+				case 1:
+					cols, rows = 1+rng.Intn(12), 1+rng.Intn(8)
+				}
+			}
+			parent := win
+			if rng.Intn(3) == 0 {
+				if cols < 1 {
+					cols = 1 + rng.Intn(26)
+				}
+				if rows < 1 {
+					rows = 1 + rng.Intn(16)
+				}
+				win = vaxis.Window{Vx: root.Vx, Parent: &parent, Column: rng.Intn(13) - 4, Row: rng.Intn(9) - 3, Width: cols, Height: rows}
+			} else {
+				win = parent.New(rng.Intn(pw+5)-3, rng.Intn(ph+4)-2, cols, rows)
+			}
+			if w, h := win.Size(); !last && (w < 1 || h < 1) {
+				break
+			}
+		}
+		if w, h := win.Size(); w >= 1 && h >= 1 && win.Parent != nil {
+			return win
+		}
+	}
+	return root.New(winCol, winRow, tw, th)
+}
+
+// hostCoq is the Coq term of the host: screen size, window chain (innermost first), focus.
+func hostCoq(win vaxis.Window, focused bool) (string, []levelJSON) {
+	var levels []string
+	var chain []levelJSON
+	for w := win; ; w = *w.Parent {
+		levels = append(levels, fmt.Sprintf("mkWl %s %s %s %s", hx.Z(int64(w.Column)), hx.Z(int64(w.Row)), hx.Z(int64(w.Width)), hx.Z(int64(w.Height))))
+		chain = append(chain, levelJSON{w.Column, w.Row, w.Width, w.Height})
+		if w.Parent == nil {
+			break
+		}
+	}
+	return fmt.Sprintf("((%d, %d), %s, %s)", hostCols, hostRows, hx.List(levels), hx.Bool(focused)), chain
+}
+
+// drawCase draws the emulator into a host window of a real Vaxis whose screen was filled with
+// a sentinel and whose cursor was hidden, and returns the Coq term of the host (screen size,
+// window chain, focus) and of the observation (outcome, the emulator afterwards, the host's
+// cursor in screen coordinates, every host cell that is not the sentinel any more).
+func drawCase(vx *vaxis.Vaxis, r *termhx.Runner, win vaxis.Window, focused bool) (string, drawJSON) {
 	root := vx.Window()
 	sentinel := vaxis.Cell{Character: vaxis.Character{Grapheme: "#", Width: 1}}
 	root.Fill(sentinel)
+	vx.ShowCursor(0, 0, 0)
 	vx.HideCursor()
-	win := root.New(winCol, winRow, w, h)
 	vt := r.T.Model()
-	vt.Focus()
+	if focused {
+		vt.Focus()
+	} else {
+		vt.Blur()
+	}
 	vt.Draw(win)
+	var j drawJSON
 	scr := vx.VerifScreenNext()
-	outside := true
-	var rows []string
+	var cells []string
 	for y := range scr {
-		var cells []string
 		for x := range scr[y] {
 			c := scr[y][x]
-			inside := x >= winCol && x < winCol+w && y >= winRow && y < winRow+h
-			if inside {
-				cells = append(cells, fmt.Sprintf("(%s, %d, %s)", hx.Runes(c.Grapheme), c.Width, termhx.CoqStyle(c.Style)))
-			} else if c.Cell != sentinel {
-				outside = false
+			if c.Grapheme != "#" || c.Width != 1 || c.Style != (vaxis.Style{}) {
+				cells = append(cells, fmt.Sprintf("(%d, %d, (%s, %s, %s))", x, y, hx.Runes(c.Grapheme), hx.Z(int64(c.Width)), termhx.CoqStyle(c.Style)))
 			}
-		}
-		if y >= winRow && y < winRow+h {
-			rows = append(rows, hx.List(cells))
 		}
 	}
 	cur := vx.VerifCursorNext()
-	j := drawJSON{Outside: outside, Visible: cur.Visible, Col: cur.Col - winCol, Row: cur.Row - winRow, W: w, H: h}
-	obs := fmt.Sprintf("(%s, (%s, %s, %s), [%s])", hx.Bool(outside), hx.Bool(cur.Visible),
-		hx.Z(int64(j.Col)), hx.Z(int64(j.Row)), strings.Join(rows, ";\n "))
+	o := r.Observe()
+	// (with no rows the hook cannot tell which grid is the active one: light observation)
+	if snap := r.T.Snapshot(true); snap.Rows > 0 {
+		o.Snap, o.Full = &snap, true
+	}
+	j.Visible, j.Col, j.Row, j.Changed = cur.Visible, cur.Col, cur.Row, len(cells)
+	obs := fmt.Sprintf("(0, %s, (%s, %s, %s),\n %s)", o.Coq(), hx.Bool(cur.Visible), hx.Z(int64(cur.Col)), hx.Z(int64(cur.Row)), hx.List(cells))
 	return obs, j
 }
 
@@ -77,9 +162,14 @@ func main() {
 	s.Known = "c05_hist_known"
 	s.KnownClass = "event-stall"
 	s.ShardMax = 40
-	ds := hx.NewStream("draw", "model.Colour model.Sgr model.Term model.TermCheck", "draw_case",
-		"c05_draw_mismatches", "c05_draw_violations")
+	ds := hx.NewStream("draw", "model.Colour model.Sgr model.Term model.TermCheck model.TermDraw", "wdraw_case",
+		"c05_wdraw_mismatches", "c05_wdraw_violations")
 	ds.ShardMax = 40
+	ds.Known = "c05_wdraw_known"
+	ds.KnownClass = "draw-empty-window"
+	// windows without a cell (the proposed finding draw-empty-window: Draw panics or leaves a
+	// terminal of width 0) are generated only on request, until the finding is recorded
+	emptyWindows := os.Getenv("C05_EMPTY_WINDOWS") == "1"
 	os.Unsetenv("COLORTERM")
 	fc := hx.NewFakeConsole(hx.ProfileFromMask(0, hostRows, hostCols))
 	vx, err := vaxis.New(vaxis.Options{WithConsole: fc, NoSignals: true})
@@ -92,27 +182,68 @@ func main() {
 
 	nDraw := 0
 	add := func(r *termhx.Runner, kind string, tags ...string) {
-		// every third surviving history is also drawn: into a window of the terminal's
-		// size, or of another size (Draw then resizes the terminal first)
-		var drawObs string
+		// every third surviving history is also drawn: into a window of the terminal's size
+		// below the root, or into a chain of windows of any size and position (Draw resizes
+		// the terminal first if the innermost window has another size)
+		var drawObs, drawHist string
 		var dj drawJSON
+		var dtags []string
 		if !r.Dead && len(r.Steps) > 0 {
 			nDraw++
 			last := r.Steps[len(r.Steps)-1].Obs
-			// (a window that does not fit the host screen would be clipped)
-			if nDraw%3 == 0 && last.Cols <= hostCols-winCol && last.Rows <= hostRows-winRow {
-				w, h := last.Cols, last.Rows
-				if nDraw%9 == 0 {
-					w, h = 1+cfg.Rand.Intn(12), 1+cfg.Rand.Intn(8)
+			if nDraw%3 == 0 {
+				mode := 1
+				if nDraw%9 == 0 && last.Cols <= hostCols-winCol && last.Rows <= hostRows-winRow {
+					mode = 0
 				}
-				panicked, msg := hx.Catch(func() { drawObs, dj = drawCase(vx, r, w, h) })
+				if emptyWindows && nDraw%15 == 0 {
+					mode = 2
+				}
+				win := hostWindow(cfg.Rand, vx.Window(), last.Cols, last.Rows, mode)
+				focused := cfg.Rand.Intn(4) != 0
+				w, h := win.Size()
+				drawHist = termhx.CoqHistory(r.Steps)
+				pre := append([]termhx.Step(nil), r.Steps...)
+				hostTerm, chain := hostCoq(win, focused)
+				panicked, msg := hx.Catch(func() { drawObs, dj = drawCase(vx, r, win, focused) })
+				dj.Hist = histJSON{Kind: kind, Steps: pre}
+				dj.Chain, dj.Focused = chain, focused
+				dj.Resized = w != last.Cols || h != last.Rows
 				if panicked {
-					direct = append(direct, hx.DirectViolation{Class: "draw-panic", Case: histJSON{Kind: kind, Steps: r.Steps}, What: msg})
-					drawObs = ""
-				} else if w != last.Cols || h != last.Rows {
+					dj.Panic = msg
+					r.Dead = true
+					if w >= 1 && h >= 1 {
+						direct = append(direct, hx.DirectViolation{Class: "draw-panic", Case: dj, What: msg})
+						drawObs = ""
+					} else {
+						// class draw-empty-window: the model has to predict the panic
+						drawObs = "(1, mkObs 1 0 0 0 0 false 0 0 0 0 0 [] [] None, (false, 0, 0), [])"
+					}
+				}
+				if drawObs != "" {
+					drawObs = hostTerm + ",\n " + drawObs
+				}
+				if w < 1 || h < 1 {
+					// the terminal is not usable afterwards: its history ends before the Draw
+					r.Dead = true
+				} else if !panicked && dj.Resized {
 					// Draw resized the terminal: that is one more step of the history
 					r.Steps = append(r.Steps, termhx.Step{Resize: true, W: w, H: h, Obs: r.Observe()})
 				}
+				depth := 0
+				overhang := false
+				for p := win; p.Parent != nil; p = *p.Parent {
+					depth++
+					pw, ph := p.Parent.Size()
+					if p.Column < 0 || p.Row < 0 || p.Column+p.Width > pw || p.Row+p.Height > ph {
+						overhang = true
+					}
+				}
+				if w < 1 || h < 1 {
+					dtags = append(dtags, fmt.Sprintf("empty-window-panic-%v", panicked))
+				}
+				dtags = append(dtags, kind, fmt.Sprintf("resized-%v", dj.Resized), fmt.Sprintf("depth-%d", depth),
+					fmt.Sprintf("overhang-%v", overhang), fmt.Sprintf("focused-%v", focused), fmt.Sprintf("cursor-%v", dj.Visible))
 			}
 		}
 		r.Finish()
@@ -134,8 +265,7 @@ func main() {
 		tags = append(tags, kind, "outcome-"+out, fmt.Sprintf("steps-%d0s", len(r.Steps)/10))
 		s.Add(termhx.CoqHistory(r.Steps), h, len(kinds) >= 3, tags...)
 		if drawObs != "" {
-			dj.Hist = h
-			ds.Add("("+termhx.CoqHistory(r.Steps)+",\n "+drawObs+")", dj, len(kinds) >= 3, kind, fmt.Sprintf("window-%v", dj.W == r.Steps[len(r.Steps)-1].W))
+			ds.Add("("+drawHist+",\n "+drawObs+")", dj, len(kinds) >= 3, dtags...)
 		}
 	}
 
@@ -282,6 +412,6 @@ func main() {
 		r, tags := wideRandom(cfg.Rand)
 		add(r, "wide-neighbourhood", tags...)
 	}
-	cfg.Write("C05", "histories from New(): first resize to a size from 1x1 upward, then chunks of grammar-generated child output (printable narrow/wide/zero-width text, C0, ESC, CSI with parameters omitted/0/1/size-1/size/size+1/huge/overflowing, SGR, OSC/APC/DCS strings) or raw fuzzed bytes, plus directed histories: SGR lists cut at every length around the extended colours 38/48/58 (selector omitted/0/2/5/unknown, semicolon, colon and mixed syntax, at the start and at the tail of the list) and OSC 8 hyperlinks whose targets and parameters are drawn from an alphabet containing \";\", \":\" and \"=\", and resize-survivor histories (a cursor position at 0 / new size-2..new size+1 / old size-2..old size-1 saved into the primary or the alternate screen's slot by ESC 7, CSI s or CSI ?1049h, optionally with a tab stop, scroll region, origin / insert / autowrap mode or pen, optionally leaving the screen, then one or two resizes that shrink rows, columns or both, go to 1x1, grow or keep the size, then ESC 8, CSI u, CSI ?1049l or a tab on the same or the other screen, at once followed by operations that index the grid at the cursor: erase, insert / delete line and character, repeat, IRM print, wide print, index / reverse index, tabs), and wide-glyph-neighbourhood histories (on widths 2..6 and 80 a wide glyph with its head at every column including the last two, where it wraps or with DECAWM off stays without a spacer; the spacer kept or destroyed by DCH / ICH / ECH / EL / REP / a narrow or wide print at the spacer or at the head; the cursor brought onto the cell before the head, the head, the spacer or the cell after it by CHA, HPA, CUP, BS, CUB, CR+CUF, CR+HPR or CUF huge + CHA; then REP, ICH, DCH, ECH with counts omitted / 0 / 1 / 2 / width-col-1 / width-col / width-col+1 / width / width+1 / huge, narrow and wide prints with IRM on and off, tabs, CUF / CUB / BS, EL / ED / IL / DL, then a print or REP on what is left; plus random wide-heavy text with horizontal moves, these operations and resizes by a few columns), parsed by the real ansi.Parser and fed one sequence at a time through the unmodified update path, with resizes between chunks and a random event-drain schedule; after every step the observation (outcome, size, cursor, deferred-wrap flag, margins, events pending, length of every row of both grids) and every 9th step plus the last one the complete state (both grids, pen, modes, tab stops, charsets, saved cursors); non-trivial = at least three different control functions in the history",
+	cfg.Write("C05", "histories from New(): first resize to a size from 1x1 upward, then chunks of grammar-generated child output (printable narrow/wide/zero-width text, C0, ESC, CSI with parameters omitted/0/1/size-1/size/size+1/huge/overflowing, SGR, OSC/APC/DCS strings) or raw fuzzed bytes, plus directed histories: SGR lists cut at every length around the extended colours 38/48/58 (selector omitted/0/2/5/unknown, semicolon, colon and mixed syntax, at the start and at the tail of the list) and OSC 8 hyperlinks whose targets and parameters are drawn from an alphabet containing \";\", \":\" and \"=\", and resize-survivor histories (a cursor position at 0 / new size-2..new size+1 / old size-2..old size-1 saved into the primary or the alternate screen's slot by ESC 7, CSI s or CSI ?1049h, optionally with a tab stop, scroll region, origin / insert / autowrap mode or pen, optionally leaving the screen, then one or two resizes that shrink rows, columns or both, go to 1x1, grow or keep the size, then ESC 8, CSI u, CSI ?1049l or a tab on the same or the other screen, at once followed by operations that index the grid at the cursor: erase, insert / delete line and character, repeat, IRM print, wide print, index / reverse index, tabs), and wide-glyph-neighbourhood histories (on widths 2..6 and 80 a wide glyph with its head at every column including the last two, where it wraps or with DECAWM off stays without a spacer; the spacer kept or destroyed by DCH / ICH / ECH / EL / REP / a narrow or wide print at the spacer or at the head; the cursor brought onto the cell before the head, the head, the spacer or the cell after it by CHA, HPA, CUP, BS, CUB, CR+CUF, CR+HPR or CUF huge + CHA; then REP, ICH, DCH, ECH with counts omitted / 0 / 1 / 2 / width-col-1 / width-col / width-col+1 / width / width+1 / huge, narrow and wide prints with IRM on and off, tabs, CUF / CUB / BS, EL / ED / IL / DL, then a print or REP on what is left; plus random wide-heavy text with horizontal moves, these operations and resizes by a few columns), parsed by the real ansi.Parser and fed one sequence at a time through the unmodified update path, with resizes between chunks and a random event-drain schedule; after every step the observation (outcome, size, cursor, deferred-wrap flag, margins, events pending, length of every row of both grids) and every 9th step plus the last one the complete state (both grids, pen, modes, tab stops, charsets, saved cursors); every third surviving history is then drawn by the unmodified Draw into a host window of a real Vaxis (24x14, filled with a sentinel, cursor hidden): a child of the root of the terminal's size, or a chain of one to three windows made by Window.New (offsets -3 .. beyond the parent's edge, sizes -1 / smaller / larger than the parent) or as struct literals that overhang their parent and the screen, the innermost of the terminal's size or of another size >= 1x1 (Draw resizes), focused or blurred; observed: the emulator's complete state afterwards, every host cell that is not the sentinel any more, the host cursor in screen coordinates; non-trivial = at least three different control functions in the history",
 		[]*hx.Stream{s, ds}, map[string]interface{}{"outcomes": outcomes}, direct)
 }
